@@ -61,8 +61,7 @@ package buffer
 //@   ensures implies(len(vv.views) > 0, arr(result) == arr(vv.views[0]) && off(result) == off(vv.views[0]) && len(result) == len(vv.views[0]))
 
 //@ func (*VectorisedView).RemoveFirst props C16
-//@   requires vv.size == vsum(vv.views)
-//@   ensures vv.size == vsum(vv.views)
+//@   ensures implies(old(vv.size == vsum(vv.views)), vv.size == vsum(vv.views))
 //@   ensures implies(old(len(vv.views)) == 0, vv.size == old(vv.size) && len(vv.views) == 0)
 //@   ensures implies(old(len(vv.views)) > 0, vv.size == old(vv.size) - old(len(vv.views[0])) && len(vv.views) == old(len(vv.views)) - 1)
 //@   ensures arr(vv.views) == old(arr(vv.views)) && off(vv.views) + len(vv.views) == old(off(vv.views) + len(vv.views))
@@ -70,11 +69,10 @@ package buffer
 
 // TrimFront(count) drops the first max(count,0) bytes, or everything if there are fewer.
 //@ func (*VectorisedView).TrimFront props C16 C01 C08
-//@   requires vv.size == vsum(vv.views)
-//@   ensures vv.size == vsum(vv.views)
-//@   ensures vv.size == imax(old(vv.size) - imax(count, 0), 0)
+//@   ensures implies(old(vv.size == vsum(vv.views)), vv.size == vsum(vv.views))
+//@   ensures implies(old(vv.size == vsum(vv.views)), vv.size == imax(old(vv.size) - imax(count, 0), 0))
 //@   ensures arr(vv.views) == old(arr(vv.views)) && off(vv.views) + len(vv.views) == old(off(vv.views) + len(vv.views))
-//@   loop 1 invariant vv.size == vsum(vv.views)
+//@   loop 1 invariant implies(old(vv.size == vsum(vv.views)), vv.size == vsum(vv.views))
 //@   loop 1 invariant count <= old(count) && (count >= 0 || count == old(count))
 //@   loop 1 invariant vv.size - count == old(vv.size) - old(count)
 //@   loop 1 invariant arr(vv.views) == old(arr(vv.views)) && off(vv.views) + len(vv.views) == old(off(vv.views) + len(vv.views))
@@ -83,12 +81,11 @@ package buffer
 
 // CapLength(length) keeps the first min(size, max(length,0)) bytes.
 //@ func (*VectorisedView).CapLength props C16 C01 C08
-//@   requires vv.size == vsum(vv.views)
-//@   ensures vv.size == vsum(vv.views)
+//@   ensures implies(old(vv.size == vsum(vv.views)), vv.size == vsum(vv.views))
 //@   ensures vv.size == imin(old(vv.size), imax(length, 0))
 //@   ensures arr(vv.views) == old(arr(vv.views)) && off(vv.views) == old(off(vv.views)) && len(vv.views) <= old(len(vv.views))
 //@   loop 1 invariant -1 <= rangeindex && rangeindex < len(vv.views)
-//@   loop 1 invariant length >= 0 && vv.size == length + vtotal(vv.views, 0, rangeindex + 1)
+//@   loop 1 invariant length >= 0 && implies(old(vv.size == vsum(vv.views)), vv.size == length + vtotal(vv.views, 0, rangeindex + 1))
 //@   modifies vv.size, vv.views, elems(vv.views)
 
 // ToView flattens: the result has exactly size bytes.
